@@ -34,6 +34,9 @@ func init() {
 			{ID: "C06-D2-unconditional-insert", File: "core/dutydb/memory.go", Expect: "D2",
 				Old: "\t} else {\n\t\tdb.attDuties[aKey] = &attData.Data\n\t}",
 				New: "\t}\n\n\tdb.attDuties[aKey] = &attData.Data"},
+			{ID: "C06-D6-early-success", File: "core/dutydb/memory.go", Expect: "D6",
+				Old: "\tif value, ok := db.attPubKeys[pKey]; ok {\n\t\tif *value != *pubkeyStore {\n\t\t\treturn errors.New(\"clashing public key\", z.Any(\"pKey\", pKey))\n\t\t}\n",
+				New: "\tif value, ok := db.attPubKeys[pKey]; ok {\n\t\tif *value != *pubkeyStore {\n\t\t\treturn errors.New(\"clashing public key\", z.Any(\"pKey\", pKey))\n\t\t}\n\n\t\treturn nil // already stored\n"},
 			{ID: "C06-D3-ignore-status", File: "core/dutydb/memory.go", Expect: "D3",
 				Old: "status == core.DeadlineExpired || status == core.DeadlineExempt {",
 				New: "status == core.DeadlineExempt {"},
@@ -150,6 +153,47 @@ func c06(c *rt.Ctx) {
 		}
 		if nLookups < 7 {
 			c.Unsure("lookups", token.NoPos, "fewer comma-ok lookups in store functions than confirmed (7)")
+		}
+	})
+
+	c.Rule("D6", 7, func() {
+		// a store function reports success only after every key it maintains has been looked up (and thereby
+		// compared or inserted): an early `return nil` that skips a later lookup accepts conflicting data unseen
+		// and leaves alias keys missing
+		for _, fn := range funcs {
+			if !strings.HasPrefix(fn.Name(), "store") || fn.Parent() != nil {
+				continue
+			}
+			var lks []*ssa.Lookup
+			for _, f := range c06DataMaps {
+				for _, lk := range c06Lookups(fn, dutydb+"."+f) {
+					if lk.CommaOk {
+						lks = append(lks, lk)
+					}
+				}
+			}
+			for i, lk := range lks {
+				field, _, _ := an.FieldOf(lk.X)
+				good := true
+				var bad *ssa.Return
+				for _, r := range an.Returns(fn) {
+					succ := false
+					for _, v := range r.Results {
+						if an.IsErrorType(v.Type()) && an.IsNilConst(v) {
+							succ = true
+						}
+					}
+					if succ && !lk.Block().Dominates(r.Block()) {
+						good, bad = false, r
+					}
+				}
+				pos := lk.Pos()
+				if bad != nil {
+					pos = posOf(bad)
+				}
+				c.Check(an.FuncName(fn)+" success only after lookup #"+itoa(i+1)+" of "+field, pos, good,
+					"the function can return success on a path that skips this key's lookup: conflicting data for it is accepted unseen / the key is never inserted")
+			}
 		}
 	})
 
